@@ -1361,6 +1361,7 @@ def par_6c(ctx, rep):
     if 'error_recovery' not in f.all_params():
         raise AnalysisError('PAR-6c: Grammar.parse has no error_recovery parameter')
     n = 0
+    cfg = ctx.cfg(f)
     for x in walk_own(f.node):
         if not (isinstance(x, ast.Name) and x.id == 'error_recovery' and isinstance(x.ctx, ast.Load)):
             continue
@@ -1373,13 +1374,24 @@ def par_6c(ctx, rep):
             ok = callee in ('self._parser', 'p', 'parser') or callee.endswith('._parser')
             why = 'the flag is handed to %s' % callee
         else:
-            # a validation test whose true branch only raises
+            # a validation test: what runs only when the flag has one particular value is nothing but raising (and further
+            # tests) - whatever the layout (`if a and b: raise`, nested ifs, the rest of the function in an else branch)
             st = x
             while st is not None and not isinstance(st, ast.stmt):
                 st = getattr(st, '_parent', None)
-            if isinstance(st, ast.If) and any(x is y for y in ast.walk(st.test)) and st.body \
-                    and all(isinstance(b, ast.Raise) for b in st.body) and not st.orelse:
-                ok = True
+            tests = [n_ for n_ in cfg.nodes if n_.kind == 'test' and any(y is x for y in ast.walk(n_.ast))]
+            ok = bool(tests)
+            for tn in tests:
+                a_side, b_side = set(), set()
+                for s2, lab in tn.succ:
+                    if lab == 'T':
+                        a_side |= cfg.reachable(start=s2, labels_blocked=('exc',)) | {s2}
+                    elif lab == 'F':
+                        b_side |= cfg.reachable(start=s2, labels_blocked=('exc',)) | {s2}
+                for only in (a_side - b_side) | (b_side - a_side):
+                    if only.kind == 'test' or only in (cfg.raise_exit, cfg.exit) or isinstance(only.ast, ast.Raise) or only.ast is None:
+                        continue
+                    ok = False
             why = 'the flag is read in `%s`' % head(st) if st is not None else ''
         rep.ob('PAR-6c', GRAMMAR, f.qual, 'use of error_recovery: %s' % norm(getattr(x, '_parent', x))[:80], ok,
                '%s: something other than the parser depends on the mode, so the strict and the recovering parse no longer '
